@@ -33,7 +33,7 @@ def run(ctx):
     ctx.neg("BinaryLogMC", "BinaryLogNeg.cfg", expect="I_TruncProp", workers=2)
     binary = ctx.go_build("internal/binarylog", name="c55", only=r"zz_verif_c55_")
     path = os.path.join(ctx.run, "c55.ndjson")
-    ctx.driver(binary, "TestVerifC55BinaryLog", {"VERIF_OUT": path, "VERIF_N": ctx.pick(250, 5000), "VERIF_MAXN": ctx.pick(4, 5)})
+    ctx.driver(binary, "TestVerifC55BinaryLog", {"VERIF_OUT": path, "VERIF_N": ctx.pick(250, 2000), "VERIF_MAXN": ctx.pick(4, 5)})
     rows = read_ndjson(path)
     account(ctx, rows, drop=("out", "flag"))
     validate_known(ctx, "BinaryLogTrace", "BinaryLogTrace.cfg", rows, WEAK, "binary log")
